@@ -162,6 +162,15 @@ func famReduce(g *Gen) {
 	if g.chance(0.12) {
 		ds = g.shapeBig()
 		g.tag("large-tensor")
+	} else if g.chance(0.1) {
+		// long vectors / long innermost rows (blocked or unrolled reductions start at sizes like 32, 128, 1024)
+		ds = [][]int{{129}, {300}, {1025}, {3, 36}, {2, 64}, {2, 130}, {5, 1, 32}}[g.intn(7)]
+		g.tag("long-row")
+	}
+	if g.chance(0.06) {
+		// beyond the sizes the model can carry (thresholds like 1<<14): checked against the specification directly
+		bds := [][]int{{20001}, {16390}, {3, 16385}, {130, 129}, {2, 70, 128}}[g.intn(5)]
+		g.directReduceBig(bds, g.valsDistinct(prod(bds), -3, 3))
 	}
 	if g.chance(0.15) {
 		a = g.leafVals(ds, g.valsOffset(prod(ds)), false)
